@@ -45,7 +45,7 @@ def run_job(kind, key):
             r['witness'] = dict(function=c.name)
         return dict(job=key, records=recs, paths=npaths, lib=sorted(I.used_lib))
     if kind == 'contract':
-        c = [x for x in cs if x.name == key][0]
+        c = [x for x in cs if f"{x.rel}::{getattr(x, 'role', x.qualname)}" == key][0]
         recs, npaths = verify_contract(I, c, PROP)
         for r in recs:
             r['witness'] = dict(function=c.name)
